@@ -85,6 +85,24 @@ CLAIMED = {
              "property's quantifier is. str.replace chains modelled per character.",
         technique="Coq proof (finite sweeps lifted to quantified statements, structural lemmas over range tables, "
                   "induction for the decoder round trip and loop termination) + differential correspondence"),
+    "C14": dict(
+        category="proof",
+        text="Tables regenerated from constants.py and proved identical (vm_compute) to CPython's independent copy "
+             "(html.entities.html5: 2231 names; html._invalid_charrefs). Theorems: the numeric replacement equals the "
+             "standard's for EVERY value n and EVERY digit string (range analysis with lia + a 256-point sweep, not "
+             "enumeration); for an ARBITRARY table and EVERY input the extend-then-backtrack loop returns THE longest "
+             "identifier that is a prefix of the input; text, parse errors and the attribute-value exception equal the "
+             "transcribed standard rule (Spec/CharRef.v) up to already-consumed name characters; every reference the "
+             "serializer writes from its reverse map decodes back to its character whatever follows. Model of "
+             "consumeEntity/consumeNumberEntity/trie tied to the real tokenizer by exact-agreement correspondence "
+             "(output, error codes, remaining stream) on every name, every legacy name x follower x context, numeric "
+             "boundaries; thorough: every name x follower, every value 0..0x110000. Open: numeric &#xHEX; "
+             "round trip as a theorem; text contexts beyond the reference itself need the tokenizer model (C02).",
+        design_ref="DESIGN.md 3 C14",
+        note="Spec/CharRef.v (C1 table, named-reference rule) is my transcription of the standard; CPython's html "
+             "module tables are the independent copy. One fix: commit in /repo (digit limit). One known finding.",
+        technique="Coq proof (generic induction over the scan loop, lia range analysis, vm_compute table equality) + "
+                  "translated tables + differential correspondence on the real tokenizer"),
 }
 
 PENDING_REASON = "not yet built in this round (planned: Coq model + theorems per DESIGN.md section 3); no check is registered, so nothing is claimed"
